@@ -59,6 +59,9 @@ def gen_cases(seed, tier):
             for rt in ROUTINES:
                 out.append({'family': fam, 'routine': rt,
                     'seed': int(rng.integers(1 << 62))})
+        for j in range(8):
+            out.append({'family': 'generic', 'routine': 'extreme-scale',
+                'seed': int(rng.integers(1 << 62))})
     return out
 
 
@@ -400,6 +403,58 @@ def r_anova_func(ctx, rng, fam):
         ctx.nontrivial(['anova_func', kind, d, nm])
 
 
+def r_extreme(ctx, rng):
+    """Finite cores whose tensor is so small that Gram matrices underflow
+    to exactly zero (norm < 1e-162, float32: < 1e-23), or so large that the
+    norm is not a double (> 1e308; stabilised rounding only): the results
+    must still be well-formed with finite entries."""
+    import teneva
+    d = int(rng.integers(3, 7))
+    n = [int(rng.choice([2, 4])) for _ in range(d)]
+    Y = gen.cores(rng, n, gen.rand_ranks(rng, d, 3), 'normal')
+    kind = ['one-core-tiny', 'all-cores-tiny', 'float32-tiny', 'huge'][
+        int(rng.integers(4))]
+    if kind == 'one-core-tiny':
+        Y[int(rng.integers(d))] *= 10.0 ** -int(rng.integers(165, 200))
+    elif kind == 'all-cores-tiny':
+        for G in Y:
+            G *= 10.0 ** (-int(rng.integers(170, 280)) / d)
+    elif kind == 'float32-tiny':
+        Y = [(G * 10.0 ** (-int(rng.integers(26, 36)) / d)).astype(np.float32)
+            for G in Y]
+    else:
+        for G in Y:
+            G *= 10.0 ** (int(rng.integers(315, 420)) / d)
+    ctx.event('extreme-scale:' + kind)
+    if kind == 'huge':
+        for eigh in (True, False):
+            for cap in (1e12, 2):
+                Z = teneva.truncate(Y, 1e-6, cap, True, True, eigh)
+                wf(ctx, 'truncate', Z, n, f'truncate(use_stab=True)[norm '
+                    f'beyond the double range, d={d}]', dict(is_eigh=eigh,
+                    r=cap))
+        Z, p = teneva.orthogonalize(Y, int(rng.integers(d)), True)
+        wf(ctx, 'orthogonalize', Z, n, 'orthogonalize(use_stab=True)[norm '
+            'beyond the double range]')
+        v, p = teneva.norm(Y, use_stab=True)
+        ctx.check('scalars', np.isfinite(v) and np.isfinite(p),
+            f'norm(use_stab=True) of a huge tensor: ({v}, {p})')
+    else:
+        for eigh, stab, orth, cap in itertools.product([True, False],
+                [False, True], [True, False], [1e12, 1]):
+            Z = teneva.truncate(Y, 1e-10, cap, orth, stab, eigh)
+            wf(ctx, 'truncate', Z, n, f'truncate[{kind}]', dict(r=cap,
+                orth=orth, use_stab=stab, is_eigh=eigh))
+        Z = teneva.add_many([Y, Y, Y])
+        wf(ctx, 'add_many', Z, n, f'add_many[{kind}]')
+        Z = teneva.tt_to_qtt([np.asarray(G, dtype=float) for G in Y])
+        wf(ctx, 'qtt', Z, [2] * int(sum(np.log2(n))), f'tt_to_qtt[{kind}]')
+        for x in (teneva.norm(Y), teneva.sum(Y), teneva.mean(Y)):
+            ctx.check('scalars', np.isfinite(x), f'scalar of a tiny tensor '
+                f'[{kind}]: {x}')
+    ctx.nontrivial(['extreme-scale', kind, d])
+
+
 def r_cheb(ctx, rng, Y, n, fam):
     import teneva
     if min(n) < 2:
@@ -427,6 +482,8 @@ def run_case(case, ctx):
             return r_als_func(ctx, rng, fam)
         if rt == 'anova_func':
             return r_anova_func(ctx, rng, fam)
+        if rt == 'extreme-scale':
+            return r_extreme(ctx, rng)
         Y, n = make_family(rng, fam)
         fn = {'truncate': r_truncate, 'orthogonalize': r_orth, 'svd': r_svd,
             'svd_matrix': r_svd_matrix, 'add_many': r_add_many,
